@@ -1599,6 +1599,67 @@ def reentrant_brackets(ctx):
                 {"bracket": f.qual, "entered_from": outer[:5]}, detail={"restores_previous_value": restores(f), "entered_from": outer[:5]})
 
 
+TABLE_TEXT_CURRENT = ("table", "tbody", "tfoot", "thead", "tr")     # + template, which html5lib does not implement
+
+
+def table_text_condition(ctx):
+    """C01.24: "in table", a character token: *if the current node is a table, tbody, tfoot, thead or tr element* the pending
+    table character tokens are collected (in table text); otherwise it is "anything else" -- the in-body rules with foster
+    parenting (reconstruct the active formatting elements, drop the newline after <pre>, ...).  The two character handlers of the
+    table phase are run on each current-node name: they enter the table-text mode exactly for the five names."""
+    from ..partition import MiniInterp, Opaque
+    r = ctx.r
+    pm = model(ctx)
+    r.rule("C01.24", "in table, characters are collected as table text only when the current node is table/tbody/tfoot/thead/tr", floor=16)
+    it = pm.phases.get("inTable")
+    mod = ctx.repo.module(PARSER_REL)
+    for meth in ("processSpaceCharacters", "processCharacters"):
+        f = it.find_method(meth) if it is not None else None
+        if f is None or f.cls is not it:
+            r.idiom("C01.24", False, "table-text::%s" % meth, PARSER_REL, "InTablePhase.%s not found" % meth)
+            continue
+        for name in TABLE_TEXT_CURRENT + ("div", "pre", "caption", "b"):
+            entered, delegated = [], []
+
+            def hook(node, local, name=name):
+                if norm(node) in ("self.tree.openElements[-1].name", "self.parser.tree.openElements[-1].name"):
+                    return name
+                return NotImplemented
+
+            def stmt_hook(st, out, interp, entered=entered, delegated=delegated):
+                if isinstance(st, ast.Assign) and norm(st.targets[0]) in ("self.parser.phase",):
+                    if "inTableText" in norm(st.value):
+                        entered.append(st)
+                    out.env["<phase>"] = norm(st.value)
+                    return False
+                if isinstance(st, ast.Assign) and norm(st.targets[0]).startswith(("self.parser.phase.", "self.tree.insertFromTable")):
+                    return False
+                if isinstance(st, ast.Expr) and isinstance(st.value, ast.Call):
+                    t = norm(st.value.func)
+                    if t.startswith("self.parser.phases['inBody'].process") or t == "self.insertText":
+                        delegated.append(st)
+                        return False
+                    if t.startswith("self.parser.phase.process"):
+                        return False
+                return NotImplemented
+            key = "table-text::%s::current-node-%s" % (meth, name)
+            try:
+                MiniInterp(ctx.ce, mod, expr_hook=hook, stmt_hook=stmt_hook).run(f.node.body, {"self": Opaque("self"), f.params()[1]: Opaque("token")})
+            except AnalysisError as e:
+                r.idiom("C01.24", False, key, f.where, "InTablePhase.%s not decidable (%s)" % (meth, str(e)[:80]))
+                continue
+            want = name in TABLE_TEXT_CURRENT
+            r.idiom("C01.24", bool(entered) == want and (want or bool(delegated)), key, f.where,
+                    "InTablePhase.%s with current node <%s>: neither table text nor an in-body delegation was recognised" % (meth, name),
+                    wrong=[(bool(entered) and not want,
+                            "in table, a character token with current node <%s> is collected as table text; for the standard it is \"anything "
+                            "else\" (in-body rules, foster parenting): `<p><b></p><table><div> </div>` must reconstruct <b> inside the div, and "
+                            "`<table><pre>\\nx` must drop the newline" % name),
+                           (not entered and want, "in table, a character token with current node <%s> is not collected as table text: "
+                                                  "white space between rows would be foster-parented / reconstructed" % name)],
+                    data={"handler": meth, "current_node": name}, detail={"handler": meth, "current_node": name, "table_text": bool(entered)})
+
+
 def run(ctx):
     r = ctx.r
     r.explanation = (
@@ -1648,6 +1709,7 @@ def run(ctx):
     pop_until_html_element(ctx)
     missing_steps(ctx)
     reentrant_brackets(ctx)
+    table_text_condition(ctx)
     from . import modes
     modes.run(ctx, "C01.12")
     standard_tables(ctx)
@@ -1661,6 +1723,10 @@ def thorough(ctx):
 def mutants():
     from ..selftest import TextMutant as T
     return [
+        T("table-text-any-current-node", "html5parser.py", '        return self.tree.openElements[-1].name in ("table", "tbody", "tfoot", "thead", "tr")',
+          '        return True', "C01.24"),
+        T("table-text-not-for-tr", "html5parser.py", '        return self.tree.openElements[-1].name in ("table", "tbody", "tfoot", "thead", "tr")',
+          '        return self.tree.openElements[-1].name in ("table", "tbody", "tfoot", "thead")', "C01.24"),
         T("foster-bracket-closes-with-false", "html5parser.py", "        self.parser.phases[\"inBody\"].processEndTag(token)\n        self.tree.insertFromTable = fosterParenting", "        self.parser.phases[\"inBody\"].processEndTag(token)\n        self.tree.insertFromTable = False", "C01.23"),
         T("frameset-switch-in-fragment", "html5parser.py", "        if (not self.parser.innerHTML and\n                self.tree.openElements[-1].name != \"frameset\"):", "        if self.tree.openElements[-1].name != \"frameset\":", "C01.12"),
         T("aaa-step2-dropped", "html5parser.py", "        currentNode = self.tree.openElements[-1]\n        if (currentNode.name == token[\"name\"] and\n                currentNode.namespace == self.tree.defaultNamespace and\n                currentNode not in self.tree.activeFormattingElements):\n            self.tree.openElements.pop()\n            return\n", "", "C01.22"),
